@@ -15,6 +15,7 @@ import (
 	"verifharness/props/c12"
 	"verifharness/props/c13"
 	"verifharness/props/c14"
+	"verifharness/props/c17"
 	"verifharness/props/c18"
 )
 
@@ -27,6 +28,7 @@ var checks = map[string]func(*core.Ctx) int{
 	"C12": c12.Run,
 	"C13": c13.Run,
 	"C14": c14.Run,
+	"C17": c17.Run,
 	"C18": c18.Run,
 }
 
